@@ -409,6 +409,10 @@ func updateFolder(folderID string, req *UpdateFolderRequest, myid int64) error {
 		return fmt.Errorf("updateFolder: folder not found: %s", folderID)
 	}
 
+	if folder.Type != ItemTypeFolder {
+		return fmt.Errorf("updateFolder: specified ID is not a folder: %s", folderID)
+	}
+
 	// If moving to new parent
 	if req.ParentID != "" && req.ParentID != folder.ParentID {
 		// Validate new parent exists and is a folder
